@@ -41,10 +41,10 @@ def run(ctx):
     corpus(ctx, exe, driver)
     jobs = []
     for i in range(nsh):
-        # complete enumeration to 2 preemptions; thorough adds the 3-preemption enumeration, stopped after 300 executions per program
+        # complete enumeration to 2 preemptions; thorough adds the 3-preemption enumeration, stopped after 200 executions per program
         jobs.append(("exh2:%d" % i, [exe, "exh", "2", str(i), str(nsh), str(ctx.seed), "200000", "rot"]))
         if thorough:
-            jobs.append(("exh3:%d" % i, [exe, "exh", "3", str(i), str(nsh), str(ctx.seed), "300", "rot"]))
+            jobs.append(("exh3:%d" % i, [exe, "exh", "3", str(i), str(nsh), str(ctx.seed), "200", "rot"]))
     nr = 4000 if thorough else 800
     for i in range(8):
         jobs.append(("rnd:%d" % i, [exe, "rnd", str(nr), str(i), "8", str(ctx.seed)]))
@@ -64,7 +64,7 @@ def run(ctx):
                 "of the published values, not older than the newest one published when the load started, per reader never older than before, "
                 "one producer at a time, final state = last update. distinct = distinct event traces; non-trivial = at least one store/successful CAS"
                 % (2, "1,2,3,9,65,129", "two of the six per program, rotating (all six covered)"
-                   + ("; thorough adds the enumeration to 3 preemptions, stopped after 300 executions per program" if thorough else "")),
+                   + ("; thorough adds the enumeration to 3 preemptions, stopped after 200 executions per program" if thorough else "")),
         "exhaustive": False,
     })
     smp = vlib.extract_case(jobs[0][1], driver, 3)
@@ -123,7 +123,7 @@ def run(ctx):
         ctx.violation("model branches never exercised by the tie (it says nothing about them): %s" % ",".join(missing), {"missing": missing}, no_input=True)
 
     # real threads, no gate: the only place where the reader's raw copy really overlaps a store
-    ms = 1000 if thorough else 200
+    ms = 600 if thorough else 200
     stress = []
     for n in SIZES:
         rc, out = vlib.sh([exe, "stress", str(n), str(ms), "2"], timeout=120)
@@ -198,7 +198,7 @@ def g3(ctx):
     for i in range(nsh):
         jobs.append(("g3exh:local:%d" % i, [exe, "exh", "6" if thorough else "5", str(i), str(nsh), str(ctx.seed), "local"]))
         jobs.append(("g3exh:ipc:%d" % i, [exe, "exh", "4", str(i), str(nsh), str(ctx.seed), "ipc"]))
-        jobs.append(("g3rnd:%d" % i, [exe, "rnd", "1000" if thorough else "250", str(i), str(nsh), str(ctx.seed), "both"]))
+        jobs.append(("g3rnd:%d" % i, [exe, "rnd", "500" if thorough else "250", str(i), str(nsh), str(ctx.seed), "both"]))
     r = vlib.run_pipelines(jobs, driver, timeout=3000 if thorough else 1500)
     ctx.cov["g3_blackboard"] = {
         "evaluations": r["cases"], "ops": r["ops"], "distinct_nontrivial": r["distinct_nontrivial"], "opcount": r["opcount"],
